@@ -6,12 +6,14 @@
 package main
 
 import (
+	"context"
 	"flag"
 	"fmt"
 	"io"
 	"math/rand/v2"
 	"os"
 	"sort"
+	"time"
 
 	"github.com/bronlabs/bron-crypto/pkg/base/datastructures/hashmap"
 	"github.com/bronlabs/bron-crypto/pkg/base/serde"
@@ -19,7 +21,11 @@ import (
 	"github.com/bronlabs/bron-crypto/pkg/mpc/dkg/gennaro"
 	"github.com/bronlabs/bron-crypto/pkg/mpc/signatures/schnorr/lindell22/signing"
 	"github.com/bronlabs/bron-crypto/pkg/proofs/sigma/compiler/fiatshamir"
+	"github.com/bronlabs/bron-crypto/pkg/mpc"
 	"github.com/bronlabs/bron-crypto/pkg/mpc/dkg/trusteddealer"
+	"github.com/bronlabs/bron-crypto/pkg/mpc/session"
+	"github.com/bronlabs/bron-crypto/pkg/network"
+	ntu "github.com/bronlabs/bron-crypto/pkg/network/testutils"
 	"github.com/bronlabs/bron-crypto/pkg/mpc/redistribute"
 	"github.com/bronlabs/bron-crypto/pkg/mpc/sharing/accessstructures"
 	"github.com/bronlabs/bron-crypto/pkg/mpc/sharing/accessstructures/unanimity"
@@ -588,6 +594,95 @@ func doDKG(which string, pol *ad.Policy) *epoch {
 	return &epoch{pol: pol, as: as, shards: shards}
 }
 
+// runRunners executes network.Runner values over real Routers and the repository's in-memory coordinator.
+func runRunners[O any](ids []ID, mk func(id ID) (network.Runner[O], error)) (map[ID]O, error) {
+	coord := ntu.NewMockCoordinator(ids...)
+	type res struct {
+		id  ID
+		out O
+		err error
+	}
+	ch := make(chan res, len(ids))
+	for _, id := range ids {
+		r, err := mk(id)
+		if err != nil {
+			return nil, err
+		}
+		go func(id ID, r network.Runner[O]) {
+			rt := network.NewRouter(coord.DeliveryFor(id))
+			defer rt.Close()
+			ctx, cancel := context.WithTimeout(context.Background(), 120*time.Second)
+			defer cancel()
+			o, err := r.Run(ctx, rt, nil)
+			ch <- res{id, o, err}
+		}(id, r)
+	}
+	out := map[ID]O{}
+	var first error
+	for range ids {
+		r := <-ch
+		if r.err != nil && first == nil {
+			first = r.err
+		}
+		out[r.id] = r.out
+	}
+	return out, first
+}
+
+// doDKGRunner: the same DKGs through the networked runner API (session setup included); only outputs are visible.
+func doDKGRunner(which string, pol *ad.Policy) *epoch {
+	as, err := pol.Build()
+	if err != nil {
+		w.Emit(map[string]any{"a": "dealRefused", "pol": pol, "err": tr.ErrClass(err)})
+		return nil
+	}
+	hs := holders(pol)
+	ctxs, err := runRunners(hs, func(id ID) (network.Runner[*session.Context], error) {
+		return session.NewSessionRunner(id, ad.IDSet(hs...), reader())
+	})
+	if err != nil {
+		panic(err)
+	}
+	shards, err := runRunners(hs, func(id ID) (network.Runner[*mpc.BaseShard[ad.G, ad.S]], error) {
+		if which == "gennaro" {
+			return gennaro.NewRunner(ctxs[id], toy.NewGroup(), as, fiatshamir.Name, reader())
+		}
+		return canetti.NewRunner(ctxs[id], as, toy.NewGroup(), reader())
+	})
+	ev := map[string]any{"a": "dkgRun", "proto": which, "pol": pol, "ok": err == nil, "err": tr.ErrClass(err), "shards": map[string]any{}, "certs": []ad.Cert{}}
+	if err == nil {
+		M, lab := mspInts(anyShard(shards))
+		ev["shards"], ev["certs"] = shardsJ(shards), ad.AllCerts("cur", M, lab)
+	}
+	w.Emit(ev)
+	if err != nil {
+		return nil
+	}
+	return &epoch{pol: pol, as: as, shards: shards}
+}
+
+// doReload: store every shard (CBOR), load it again, project again.
+func doReload(ep *epoch) {
+	out := map[ID]*ad.Shard{}
+	same := true
+	for id, sh := range ep.shards {
+		data, err := serde.MarshalCBOR(sh)
+		if err != nil {
+			panic(err)
+		}
+		data2, _ := serde.MarshalCBOR(sh)
+		back, err := serde.UnmarshalCBOR[*ad.Shard](data)
+		if err != nil {
+			w.Emit(map[string]any{"a": "reload", "ok": false, "err": tr.ErrClass(err)})
+			return
+		}
+		re, _ := serde.MarshalCBOR(back)
+		same = same && string(data) == string(data2) && string(re) == string(data) && back.Equal(sh)
+		out[id] = back
+	}
+	w.Emit(map[string]any{"a": "reload", "ok": true, "same": same, "shards": shardsJ(out)})
+}
+
 func powmod(b, e uint64) uint64 {
 	r := uint64(1)
 	b %= q
@@ -743,6 +838,7 @@ func main() {
 	maxOps := flag.Int("ops", 4, "operations per history")
 	maxParties := flag.Int("parties", 4, "max holders per structure")
 	kinds := flag.Int("kinds", 4, "policy families: 1 threshold, 2 +unanimity, 3 +cnf, 4 +gate")
+	focus := flag.String("focus", "", "'' mixed histories | dkg (key generation + reload + reconstruction) | sign (key generation + signing with many quorums)")
 	flag.Parse()
 	q, seed = *qf, *sd
 	toy.Setup(q)
@@ -756,14 +852,39 @@ func main() {
 		ids := pickIDs(np)
 		var ep *epoch
 		for ep == nil {
-			switch rng.IntN(3) {
+			switch rng.IntN(5) {
 			case 0:
 				ep = doDeal(randPolicy(ids, *kinds))
 			case 1:
 				ep = doDKG("gennaro", randPolicy(ids, *kinds))
 			case 2:
 				ep = doDKG("canetti", randPolicy(ids, *kinds))
+			case 3:
+				ep = doDKGRunner("gennaro", randPolicy(ids, *kinds))
+			case 4:
+				ep = doDKGRunner("canetti", randPolicy(ids, *kinds))
 			}
+		}
+		if *focus == "dkg" {
+			doReload(ep)
+			for _, s := range subsetsOf(holders(ep.pol)) {
+				doReconstruct(ep, s)
+			}
+			continue
+		}
+		if *focus == "sign" {
+			hs := holders(ep.pol)
+			qual, unqual := qualifiedSets(ep.as, hs)
+			for i, Q := range qual { // every qualified quorum (minimal and non-minimal)
+				doSign(ep, Q, []byte(fmt.Sprintf("msg-%d-%d", h, i)))
+			}
+			for i, Q := range unqual {
+				if i < 2 {
+					doSign(ep, Q, []byte("refused"))
+				}
+			}
+			doSign(ep, qual[0], []byte{})
+			continue
 		}
 		var older *epoch
 		for op := 0; op < *maxOps; op++ {
